@@ -88,6 +88,21 @@ def build_jobs(tier, seed):
         jobs.append({'id': len(jobs), 'text': text, 'cases': cases, 'entries': ['__module__', 'L', 'M'],
                      'check_shift': True, 'check_linecol': True, 'fuel': 160,
                      'meta': {'ctx': f'{start_kind}{"/ignore" if with_ignore else ""}', 'kinds': sorted(G.kinds(e)), 'depth': G.depth(e)}})
+    # instances that are operands of operator tables: Infix/Prefix/Postfix nodes carry no span of their own, the
+    # instances below and after them do
+    for rows in (['left: "*"', 'left: "+"'], ['prefix: "-"', 'postfix: "!"', 'right: "^"', 'left: "+"'],
+                 ['mixfix: "(" >> E << ")"', 'infix: "="', 'left: "+"']):
+        for ign in ('', 'ignore /[ \\r\\n]+/\n'):
+            text = ('start = Stmt*\nclass Stmt { expr: E; semi: ";" }\n'
+                    'E = N between {\n' + ''.join(f'    {r}\n' for r in rows) + '}\n'
+                    'class N { digits: /[0-9]/ }\n' + ign)
+            inputs = ['7;1+2*3;4;', '1+2;3;', '1;', '-1!;2;', '1^2^3;4;', '(1+2)+3;4;', '1=2;3;', '1+;2;', '1+2', '', ';']
+            if ign:
+                inputs += ['7;\n1 + 2 * 3;\n4;', ' 1 + 2 ;\n 3 ;', '- 1 ! ;\n\n2;', '7;\r\n1 + 2;\r\n3;', '1;\r2;\n\r3;']
+            cases = [(0, t) for t in inputs] + [(2, t) for t in inputs if len(t) > 4]
+            jobs.append({'id': len(jobs), 'text': text, 'cases': cases, 'entries': ['__module__'],
+                         'check_shift': True, 'check_linecol': True, 'fuel': 200,
+                         'meta': {'ctx': 'operator-table' + ('/ignore' if ign else ''), 'kinds': ['optable', 'cls'], 'depth': 3}})
     return jobs
 
 
